@@ -68,6 +68,15 @@ Proof.
 Qed.
 Print Assumptions C03_holds.
 
+(* the hypotheses of C03_holds as the boolean the driver reports for every evaluated case *)
+Lemma C03_validb_valid c : validb c = true -> valid c.
+Proof.
+  unfold validb, valid. intros H. apply andb_true_iff in H as [H1 H2]. apply negb_true_iff in H1. auto.
+Qed.
+Theorem C03_covered_cases : forall c, validb c = true -> holds c (run_model c) = [].
+Proof. intros c H. apply C03_holds. now apply C03_validb_valid. Qed.
+Print Assumptions C03_covered_cases.
+
 (* the behaviour before fix 67d5531 (defect D7) violates the property: status 200, headers None,
    body "BODY" puts the bare body on the wire and leaves the status line in the buffer *)
 Definition env0 : env :=
